@@ -12,8 +12,8 @@ package flowcontrol
 //@ interface (FlowControl).String(f) props C05, C09
 //@   pure
 //@ interface (FlowControl).TryAcquire(f) props C05
-//@   modifies held[f]
-//@   ensures (result ==> held[f] == old(held[f]) + 1) && (!result ==> held[f] == old(held[f]))
+//@   modifies held[f], acqfailed
+//@   ensures (result ==> held[f] == old(held[f]) + 1 && acqfailed == old(acqfailed)) && (!result ==> held[f] == old(held[f]) && acqfailed == old(acqfailed) + 1)
 //@ interface (FlowControl).Release(f) props C05
 //@   modifies held[f]
 //@   ensures held[f] == old(held[f]) - 1
